@@ -70,6 +70,17 @@ FINDINGS = [
      "`return <Struct>::<field>();`, and inside `Generic<Struct>View<Storage>::<VirtualView>` that name finds the "
      "template parameter `Storage` / the nested `using ValueType` instead of `namespace <Struct>`",
      H + "struct Storage:\n  0 [+1] UInt y\n", ()),
+    ("nested-enum-named-like-its-structure",
+     "an enum nested in a structure and named like the structure (`struct Foo: enum Foo`): inside the view class the "
+     "`using Foo = ...;` of the enum hides `namespace Foo`, so `Foo::IntrinsicSizeInBytes()` of the constants' `Read()` "
+     "names a member of the enum",
+     H + "struct Foo:\n  enum Foo:\n    AA = 1\n  0 [+1] UInt y\n", ()),
+    ("type-declared-twice-in-one-cpp-namespace",
+     "two modules compiled together that share one C++ namespace (the same `(cpp) namespace`, or none: both use "
+     "`emboss_generated_code`) and both declare a type `Foo`: the header of the importing module includes the other "
+     "one and `GenericFooView` is defined twice",
+     {"m.emb": 'import "dep.emb" as dep\n' + H + "struct Foo:\n  0 [+1] UInt y\n  1 [+1] dep.Foo z\n",
+      "dep.emb": H + "struct Foo:\n  0 [+1] UInt q\n"}, ()),
     ("constant-condition-choice-static-assert",
      "`let v = true ? a : b` (constant condition, branches of different C++ integer types): runtime static_assert "
      "\"Choice's IntermediateT should be the same as ResultT\" fails when `v()` is used (found by builder bounds)",
@@ -94,14 +105,18 @@ HEADER_ONLY_KEYS = {"virtual-field-names-equal-after-camel-conversion", "validat
                     "field-named-like-parameter-member", "parameter-named-like-view-data-member",
                     "field-named-has_-of-another-field", "nested-enum-named-like-view-member",
                     "type-named-like-generated-type-identifier", "type-named-like-enum-helper",
-                    "nested-type-named-like-size-constant"}
+                    "nested-type-named-like-size-constant", "nested-enum-named-like-its-structure",
+                    "type-declared-twice-in-one-cpp-namespace"}
 
 
 def clash_key(c):
     ident, a, b = c
     pair = {a, b}
     if "own namespace reference" in pair:
-        return "structure-named-Storage-or-ValueType"
+        return "nested-enum-named-like-its-structure" if "using <enum>" in pair else "structure-named-Storage-or-ValueType"
+    if a == b and a in ("view class template", "View alias", "Writer alias", "trait", "MakeAligned…View", "Make…View",
+                        "namespace", "enum", "external view"):
+        return "type-declared-twice-in-one-cpp-namespace"
     if pair == {"virtual view class"}:
         return "virtual-field-names-equal-after-camel-conversion"
     if pair == {"validator"}:
@@ -127,7 +142,7 @@ def clash_key(c):
 
 
 # ============================================================== IR → model ops
-def struct_json(t):
+def struct_json(t, traits=True):
     fields = []
     for f in t["structure"].get("field", []):
         nm = f["name"]["name"]["text"]
@@ -142,23 +157,34 @@ def struct_json(t):
             "params": [p["name"]["name"]["text"] for p in t.get("runtime_parameter", []) or []],
             "fields": fields,
             "nested_enums": [s["name"]["name"]["text"] for s in t.get("subtype", []) or [] if "enumeration" in s],
-            "nested_structs": [s["name"]["name"]["text"] for s in t.get("subtype", []) or [] if "structure" in s]}
+            "nested_structs": [s["name"]["name"]["text"] for s in t.get("subtype", []) or [] if "structure" in s],
+            "traits": traits}
 
 
 def name_ops(ir_dict, traits=True):
-    m = ir_dict["module"][0]
-    ops = []
-    tops = m.get("type", []) or []
-    ops.append("NS " + json.dumps({"structs": [t["name"]["name"]["text"] for t in tops if "structure" in t],
-                                   "enums": [t["name"]["name"]["text"] for t in tops if "enumeration" in t],
-                                   "owner": None, "traits": traits}))
-    for t, _anc in cppgen.walk_types(m):
-        if "structure" not in t:
-            continue
-        sj = struct_json(t)
-        ops.append("CLASS " + json.dumps(sj))
-        ops.append("NS " + json.dumps({"structs": sj["nested_structs"], "enums": sj["nested_enums"], "owner": sj,
-                                       "traits": traits}))
+    """One `CLASS` op per structure and one `NS` op per C++ namespace scope of *all* modules compiled together:
+    the scope of a type is the module's `(cpp) namespace` + the names of the enclosing structures, so modules
+    of one namespace (and `namespace a::B` next to the nested types of a `struct B` in `namespace a`) share scopes."""
+    scopes, ops = {}, []
+
+    def scope(path):
+        return scopes.setdefault(path, {"structs": [], "enums": [], "externals": [], "owner": None, "traits": traits})
+    for m in ir_dict["module"]:
+        ns = tuple(cppgen.module_namespace(m))
+        for t, anc in cppgen.walk_types(m):
+            path = ns + tuple(a["name"]["name"]["text"] for a in anc)
+            nm = t["name"]["name"]["text"]
+            if "structure" in t:
+                sj = struct_json(t, traits)
+                scope(path)["structs"].append(nm)
+                scope(path + (nm,))["owner"] = sj
+                ops.append("CLASS " + json.dumps(sj))
+            elif "enumeration" in t:
+                scope(path)["enums"].append(nm)
+            elif "external" in t:
+                scope(path)["externals"].append(nm)
+    for path in sorted(scopes):
+        ops.append("NS " + json.dumps(scopes[path]))
     return ops
 
 
@@ -471,6 +497,12 @@ def run_cases(chk, cases, model_ok, tier, workers):
             plan = [("clash-check:c++14:traits", {"src_text": src, "name": "c07_%d_h" % i, "std": "c++14",
                                                    "sanitize": False, "opt": "-O0", "extra": ["-I" + c.outdir + "/t"],
                                                    "syntax_only": True})]
+            if "structure-named-Storage-or-ValueType" in pkeys:
+                # `ValueType::f()` where `ValueType` names `int32_t` is ill-formed ([basic.lookup.qual]) and clang++
+                # says so; g++ skips the non-class type and finds the namespace.  Ill-formed = some compiler rejects.
+                plan.append(("clash-check:clang:c++14:traits", {"src_text": src, "name": "c07_%d_hc" % i, "std": "c++14",
+                                                                "compiler": "clang++", "sanitize": False, "opt": "-O0",
+                                                                "extra": ["-I" + c.outdir + "/t"], "syntax_only": True}))
         else:
             plan = compile_plan(c, i, tier, c.pinned, c.all_std)
         for tag, j in plan:
@@ -512,6 +544,14 @@ def corpus(tier, r):
                 with open(os.path.join(cd, fn)) as f:
                     # every -std for the 64-bit-limits module, the rotating pair for the others
                     out.append(("corpus/" + fn, {"m.emb": f.read()}, "m.emb", (), None, False, fn == "limits.emb"))
+            elif fn.endswith(".d") and os.path.isdir(os.path.join(cd, fn)):
+                # a multi-file case: every .emb of the directory, main module m.emb
+                files = {}
+                for g in sorted(os.listdir(os.path.join(cd, fn))):
+                    if g.endswith(".emb"):
+                        with open(os.path.join(cd, fn, g)) as f:
+                            files[g] = f.read()
+                out.append(("corpus/" + fn, files, "m.emb", (), None, False, False))
     return out
 
 
@@ -813,7 +853,8 @@ def _run(tier):
     cases = corpus(tier, r)
     for key, what, text, force in FINDINGS:
         # pinned inputs of the open findings: no steering (force every known defect on)
-        cases.append(("pinned:" + key, {"m.emb": text}, "m.emb", ("equals", "text-out", "bits-iter", "text-in"), key, True, False))
+        cases.append(("pinned:" + key, text if isinstance(text, dict) else {"m.emb": text}, "m.emb",
+                      ("equals", "text-out", "bits-iter", "text-in"), key, True, False))
     n_gen, n_risky = (6, 6) if quick else (60, 60)
     feats = {}
     for i in range(n_gen):
